@@ -258,6 +258,26 @@ fn build(prop: &str, tier: &str) -> Stream {
         }
     }
 
+    // ---- long histories made small by the macro sub-language: resources that are held per sequence until somebody collects them
+    //      (a sixel sequence starts a decode thread) must not add up over a history
+    if !c09 {
+        for emu in [Emu::Ansi(0), Emu::Avatar] {
+            let mut bytes = b"\x1bP0;0;1!z!5000;1B50711B5C;\x1b\\".to_vec();
+            for _ in 0..12 {
+                bytes.extend(b"\x1b[0*z");
+            }
+            let mut t = vec![Token { bytes, key: "macro of 5000 empty sixel sequences, invoked 12 times".into() }];
+            let mut bytes = b"\x1bP0;0;1!z!2000;1B507122313B313B323B367E1B5C;\x1b\\".to_vec();
+            for _ in 0..20 {
+                bytes.extend(b"\x1b[0*z");
+            }
+            t.push(Token { bytes, key: "macro of 2000 small sixel images, invoked 20 times".into() });
+            let toks = Rc::new(t);
+            let ctxs = contexts(emu, 80, 25);
+            s.push("long histories", emu, 80, 25, &ctxs[0], &toks, 1, 1);
+        }
+    }
+
     // ---- triples
     {
         let emu = Emu::Ansi(3);
